@@ -18,3 +18,16 @@ pub proof fn thm_C13_complete(pk: CL03PublicKey, p: int, q: int, a: Seq<Integer>
     ax_euler_rsa(base, sig.e@, p, q);
 }
 
+
+/// byte codec round trip: what from_bytes decodes from to_bytes(sig) is sig (C13.codec.sig_* are the verified postconditions of both)
+pub proof fn thm_C13_codec_roundtrip(sig: CL03Signature, bytes: Seq<u8>, dec: CL03Signature, le: int, ls: int)   //# C13.thm.codec_roundtrip
+    requires
+        bytes.len() >= le + ls, 0 <= le, 0 <= ls,
+        from_digits_be(bytes.subrange(0, le)) == sig.e@, from_digits_be(bytes.subrange(le, le + ls)) == sig.s@, from_digits_be(bytes.subrange(le + ls, bytes.len() as int)) == sig.v@,
+        dec.e@ == from_digits_be(bytes.subrange(0, le)), dec.s@ == from_digits_be(bytes.subrange(le, le + ls)), dec.v@ == from_digits_be(bytes.subrange(le + ls, bytes.len() as int)),
+    ensures dec == sig,
+{
+    ax_integer_ext(dec.e, sig.e);
+    ax_integer_ext(dec.s, sig.s);
+    ax_integer_ext(dec.v, sig.v);
+}
